@@ -147,6 +147,42 @@ func doSelftest(tier, only string) int {
 	return 0
 }
 
-// runCanaries makes sure the rules behind a property still fire on seeded defects. Returns a
-// non-empty message if the checker itself is broken.
-func runCanaries(spec *propSpec) string { return "" }
+// selfTestLog is filled by runCanaries and copied into the evidence file.
+var selfTestLog []string
+
+// runCanaries makes sure the rules behind a property still fire on seeded defects: in the quick
+// tier the first mutant of the catalogue for this property, in the thorough tier every mutant and
+// every behaviour-preserving variant of the property. A mutant whose anchor vanished or that no
+// longer type-checks on the current tree is skipped. Returns a non-empty message if the checker
+// itself is broken (a canary is not flagged, or a variant raises an alarm).
+func runCanaries(spec *propSpec, tier string) string {
+	known, err := loadKnown(filepath.Join(verifDir, "known_findings.json"))
+	if err != nil {
+		return err.Error()
+	}
+	selfTestLog = nil
+	n := 0
+	for _, v := range catalogue {
+		if v.Prop != spec.ID {
+			continue
+		}
+		if tier != "thorough" && (v.Expect == "" || n >= 1) {
+			continue
+		}
+		ok, skipped, msg := runVariant(v, known, "quick")
+		kind := "mutant"
+		if v.Expect == "" {
+			kind = "variant"
+		}
+		switch {
+		case skipped || strings.Contains(msg, "does not load"):
+			selfTestLog = append(selfTestLog, fmt.Sprintf("skipped %s %s (%s): %s", kind, v.ID, v.Note, msg))
+		case ok:
+			n++
+			selfTestLog = append(selfTestLog, fmt.Sprintf("ok %s %s (%s): %s", kind, v.ID, v.Note, msg))
+		default:
+			return fmt.Sprintf("self-test %s %s (%s) failed: %s", kind, v.ID, v.Note, msg)
+		}
+	}
+	return ""
+}
